@@ -147,3 +147,22 @@ const secret = "s3cr3t-Enable!"
 // checked (generator precondition, by brute force over every prefix) not to look like a prompt of
 // any shipped definition.
 const errLine = "error 22 unknown input"
+
+// overlapPinned is the full relation {(level A's canonical prompt, level B) : B != A, B's pattern
+// matches it and none of B's not-contains strings occur}, written "A>B", as the validated tree
+// yields it (= DESIGN.md Appendix A, column "also accepted by", plus the pairs inside the classes
+// of identical prompts). The driver resolves these by its cached level or the requested target; a
+// definition whose relation changes (wider or stricter) must be re-validated, so any difference is
+// reported.
+var overlapPinned = map[string][]string{
+	"arista_eos":  {"configuration>privilege-exec"},
+	"aruba_wlc":   {"configuration>privilege-exec", "tclsh>privilege-exec"},
+	"cisco_iosxr": {"configuration>configuration-exclusive", "configuration-exclusive>configuration"},
+	"cisco_nxos":  {"tclsh>privilege-exec"},
+	"juniper_junos": {
+		"configuration>configuration-exclusive", "configuration>configuration-private",
+		"configuration-exclusive>configuration", "configuration-exclusive>configuration-private",
+		"configuration-private>configuration", "configuration-private>configuration-exclusive",
+	},
+	"cumulus_linux/root_login": {"configuration>exec", "exec>configuration"},
+}
